@@ -52,6 +52,45 @@ Lemma deriv_below x : x < x1 -> Interpolation_derivative Rops T (VFloat x) = VEr
 Proof. intros Hx. unfold obj, flist, map. c12run. reflexivity. Qed.
 Lemma deriv_above x : x3 < x -> Interpolation_derivative Rops T (VFloat x) = VErr ValueError.
 Proof. intros Hx. unfold obj, flist, map. c12run. reflexivity. Qed.
+(* within the tolerance of a node (not only exactly at it) the node's ordinate is returned: the first
+   node in table order that is closer than tol wins *)
+Lemma call_near1 x : Rabs (x - x1) < tol0 -> Interpolation___call__ Rops T (VFloat x) = VFloat y1.
+Proof. intros A1. unfold obj, flist, map. c12run. reflexivity. Qed.
+Lemma call_near2 x : tol0 <= Rabs (x - x1) -> Rabs (x - x2) < tol0 -> Interpolation___call__ Rops T (VFloat x) = VFloat y2.
+Proof. intros A1 A2. unfold obj, flist, map. c12run. reflexivity. Qed.
+Lemma call_near3 x : tol0 <= Rabs (x - x1) -> tol0 <= Rabs (x - x2) -> Rabs (x - x3) < tol0 ->
+  Interpolation___call__ Rops T (VFloat x) = VFloat y3.
+Proof. intros A1 A2 A3. unfold obj, flist, map. c12run. reflexivity. Qed.
+
+(* hence __call__ and derivative are TOTAL on floats for this table: a float or ValueError, nothing else *)
+Definition I3 (x : R) : R :=
+  if Rlt_dec (Rabs (x - x1)) tol0 then y1 else
+  if Rlt_dec (Rabs (x - x2)) tol0 then y2 else
+  if Rlt_dec (Rabs (x - x3)) tol0 then y3 else t0 + (x - x1) * (t1 + (x - x2) * t2).
+Definition D3 (x : R) : R := t1 + ((x - x2) + (x - x1)) * t2.
+
+Lemma call_total x : Interpolation___call__ Rops T (VFloat x) = VFloat (I3 x)
+                  \/ Interpolation___call__ Rops T (VFloat x) = VErr ValueError.
+Proof.
+  unfold I3.
+  destruct (Rlt_dec (Rabs (x - x1)) tol0) as [A1 | A1]; [left; apply call_near1; exact A1 |].
+  destruct (Rlt_dec (Rabs (x - x2)) tol0) as [A2 | A2]; [left; apply call_near2; lra |].
+  destruct (Rlt_dec (Rabs (x - x3)) tol0) as [A3 | A3]; [left; apply call_near3; lra |].
+  assert (B1 : tol0 <= Rabs (x - x1)) by lra. assert (B2 : tol0 <= Rabs (x - x2)) by lra.
+  assert (B3 : tol0 <= Rabs (x - x3)) by lra.
+  destruct (Rlt_dec x x1) as [L | L].
+  { right. apply call_below. unfold Rabs in B1. destruct (Rcase_abs (x - x1)); lra. }
+  destruct (Rlt_dec x3 x) as [U | U].
+  { right. apply call_above. unfold Rabs in B3. destruct (Rcase_abs (x - x3)); lra. }
+  left. apply call_inside; try assumption. lra.
+Qed.
+Lemma deriv_total x : Interpolation_derivative Rops T (VFloat x) = VFloat (D3 x)
+                   \/ Interpolation_derivative Rops T (VFloat x) = VErr ValueError.
+Proof.
+  destruct (Rlt_dec x x1) as [L | L]; [right; apply deriv_below; exact L |].
+  destruct (Rlt_dec x3 x) as [U | U]; [right; apply deriv_above; exact U |].
+  left. apply deriv_inside. lra.
+Qed.
 End Three.
 
 (* with the divided differences as coefficients the Newton form IS the parabola through the points,
